@@ -61,7 +61,7 @@ def tfn_suites(ctx, exe, suites):
     suites: [(name, windows)]; one worker batch and one model batch for all.
     Returns {name: [windows that the real optimize() changed]}"""
     flat = [(name, w) for name, ws in suites for w in ws]
-    raws = vlib.run_impl('peepfn.opt_list', [{'instrs': w} for _, w in flat])
+    raws = vlib.run_impl('peepfn.opt_list', [{'instrs': w} for _, w in flat], timeout=3300)
     jobs, its, ok_idx = [], [], []
     for k, ((suite, w), r) in enumerate(zip(flat, raws)):
         if not isinstance(r, dict) or 'in' not in r:
@@ -137,7 +137,7 @@ def exec_suites(ctx, suites, tier):
         for w in ws:
             for name, pre in pre_states_for(w, tier):
                 cases.append({'pre': pre, 'window': w, 'pname': name, 'suite': suite})
-    rs = vlib.run_impl('peepfn.exec_window', [{'pre': c['pre'], 'window': c['window']} for c in cases])
+    rs = vlib.run_impl('peepfn.exec_window', [{'pre': c['pre'], 'window': c['window']} for c in cases], timeout=3300)
     keys = {name: set() for name, _ in suites}
     n = {name: 0 for name, _ in suites}
     for c, r in zip(cases, rs):
@@ -203,7 +203,7 @@ def level_pool(ctx, tier):
                                  'rnd': [pg.fb(x) for x in c['rnd']] + [pg.fb(0.25)] * 5,
                                  'timer': [pg.fb(x) for x in c['timer']] + [pg.fb(1.5)] * 5,
                                  'inkey': c['inkey']}})
-    ks = range(180) if tier == 'thorough' else sorted(ctx.rng.sample(range(60), 20))
+    ks = range(120) if tier == 'thorough' else sorted(ctx.rng.sample(range(60), 20))
     for k in ks:
         # fixed pool, seeded by the index only; VERIF_SEED sub-samples it
         progs.append({'id': f'gen{k}', 'cls': f'gen{k}', 'src': pg.gen_program(random.Random(1000 + k), 'opt'),
@@ -218,7 +218,7 @@ def level_suite(ctx, tier):
     progs = level_pool(ctx, tier)
     cases = [{'src': p['src'], 'script': p['script'], 'levels': [0, 1, 2, 3], 'max_ticks': 20000}
              for p in progs]
-    rs = vlib.run_impl('peepfn.level_case', cases)
+    rs = vlib.run_impl('peepfn.level_case', cases, timeout=3300)
     keys = set()
     for p, r in zip(progs, rs):
         if not isinstance(r, dict) or 'harness' in r or 'exc' in r:
